@@ -8,15 +8,15 @@ Import ListNotations.
 From Verif Require Import Base.Val C22.Model_C22 C21.Model_C21.
 
 (* P is a live regular file with content d, under CONFIG_PROTECT, not masked, not ignored *)
-Definition protected_file (prot ign : str -> bool) (off : str) (fs : pmap) (P d : str) : Prop :=
+Definition protected_file (prot ign : str -> bool) (off : str) (fs : pmap) (P : str) (d : fdata) : Prop :=
   pm_get P fs = Some (File d) /\ prot (strip_off off P) = true /\ ign (strip_off off P) = false.
 
 (* the incoming entry for P differs from the live file (a non-file always differs) *)
-Definition incoming_differs (inst : pmap) (P d : str) (n : node) : Prop :=
+Definition incoming_differs (inst : pmap) (P : str) (d : fdata) (n : node) : Prop :=
   In (P, n) inst /\ same_content n (File d) = false.
 
 (* the package recorded P with a content other than the live one *)
-Definition differs_from_recorded (recorded : pmap) (P d : str) : Prop :=
+Definition differs_from_recorded (recorded : pmap) (P : str) (d : fdata) : Prop :=
   exists r, pm_get P recorded = Some r /\ same_content r (File d) = false.
 
 (* x = "._cfgNNNN_<fname>" (NNNN four decimal digits = c) is a regular file of directory dir *)
@@ -33,3 +33,33 @@ Definition numbering_rule (fs : pmap) (dir fname : str) (n : node) (c : Z) : Pro
 (* a well-formed incoming package: one entry per location, none of them named ._cfg… *)
 Definition pkg_ok (inst : pmap) : Prop :=
   NoDup (map fst inst) /\ forall e, In e inst -> starts_with cfgp (basename (fst e)) = false.
+
+(* a location splits into directory and name and joins back: true of every normalised path that does
+   not end in a slash ("/etc/foo", "/foo", "/o/etc/x/a.conf") *)
+Definition wf_locb (p : str) : bool :=
+  nonempty (basename p) && str_eqb (pjoin (dirname p) (basename p)) p.
+Definition locs_wf (inst : pmap) : bool := forallb (fun e => wf_locb (fst e)) inst.
+
+(* ---------------------------------------------------------------- the filters, declaratively *)
+(* p lies strictly below the directory entry x: normpath x without trailing slashes, a "/", anything *)
+
+Definition below_dir (x p : str) : Prop := exists rest, p = rstrip_sl (normpath x) ++ SL :: rest.
+Definition protect_entries (e : list envfile) (xp : list str) : list str := collapsed true k_cp e ++ xp ++ [etc].
+Definition mask_entries (e : list envfile) (xm : list str) : list str := collapsed true k_cpm e ++ xm.
+Definition env_word (e : list envfile) (k w : str) : Prop :=
+  exists f v, In f (envd_files e) /\ assoc k (snd f) = Some v /\
+              In w ((if declared k_colon k e then split_colon else split_ws) v).
+(* shell-pattern matching of a whole string (fnmatch): * any run of characters (slashes included),
+   ? any one character, [..] / [!..] one character in / not in the ranges *)
+Inductive glob : list pitem -> str -> Prop :=
+| g_nil : glob [] []
+| g_star_skip r s : glob r s -> glob (PStar :: r) s
+| g_star_eat r c s : glob (PStar :: r) s -> glob (PStar :: r) (c :: s)
+| g_item it r c s : it <> PStar -> item_ok it c = true -> glob r s -> glob (it :: r) (c :: s).
+Definition glob_pat (pat s : str) : Prop := glob (parse_pat (S (length pat)) pat) s.
+Definition plain (c : N) : bool := negb (N.eqb c 42) && negb (N.eqb c 63) && negb (N.eqb c 91).
+(* x as gen_collision_ignore_filter rewrites it: a directory of the live tree becomes "dir/*" *)
+Definition ignore_entry_pat (off : str) (fs : pmap) (x : str) : str :=
+  if negb (ends_with slash_star x) && is_dir fs (pjoin off (lstrip_sl x)) then rstrip_sl x ++ slash_star else x.
+Definition ignore_entries (e : list envfile) (xi : list str) : list str :=
+  collapsed false k_ci e ++ xi ++ [keep1; keep2].
